@@ -381,10 +381,10 @@ class IntegerSequence(SequenceBase):
                     self.p_start = (
                         self.p_stop - self.i_step * (reps - 1))
             else:
-                remainder = (int(self.p_context_stop - self.p_start) %
+                remainder = (int(self.p_stop - self.p_context_start) %
                              int(self.i_step))
                 self.p_start = (
-                    self.p_context_start - IntegerInterval.from_integer(
+                    self.p_context_start + IntegerInterval.from_integer(
                         remainder)
                 )
 
